@@ -298,11 +298,13 @@ async def _run_app(
 
     runner = AppRunner(app, **kwargs)
 
-    await runner.setup()
-
     sites: list[BaseSite] = []
 
     try:
+        # Inside the try block: if a startup step fails, the cleanup contexts
+        # that did start must still be exited by runner.cleanup() below.
+        await runner.setup()
+
         if host is not None:
             if isinstance(host, str):
                 sites.append(
